@@ -68,4 +68,191 @@ theorem sumLen_flipRev {len : Len} (h : LenAx len) (ss : List (Pt × Pt)) :
     simp only [sumLen]
     rw [h.symm s.2 s.1]; ring
 
+/-! ### the walk -/
+
+theorem walk_some {len : Len} : ∀ (ss : List (Pt × Pt)) (d : Rat) {a b : Pt} {r : Rat}, 0 < d →
+    walk len ss d = some (a, b, r) →
+    ∃ pre post, ss = pre ++ (a, b) :: post ∧ r = d - sumLen len pre ∧ 0 < r ∧ r ≤ len a b
+  | [], _, _, _, _, _, h => by simp [walk] at h
+  | (a', b') :: rest, d, a, b, r, hd, h => by
+    simp only [walk] at h
+    by_cases hlt : len a' b' < d
+    · rw [if_pos hlt] at h
+      obtain ⟨pre, post, e, hr, hpos, hle⟩ := walk_some rest (d - len a' b') (by linarith) h
+      refine ⟨(a', b') :: pre, post, by simp [e], ?_, hpos, hle⟩
+      simp only [sumLen]; rw [hr]; ring
+    · rw [if_neg hlt] at h
+      simp only [Option.some.injEq, Prod.mk.injEq] at h
+      obtain ⟨rfl, rfl, rfl⟩ := h
+      exact ⟨[], rest, rfl, by simp [sumLen], hd, not_lt.1 hlt⟩
+
+theorem walk_none {len : Len} : ∀ (ss : List (Pt × Pt)) (d : Rat), 0 < d →
+    walk len ss d = none → sumLen len ss < d
+  | [], _, hd, _ => by simpa [sumLen] using hd
+  | (a', b') :: rest, d, hd, h => by
+    simp only [walk] at h
+    by_cases hlt : len a' b' < d
+    · rw [if_pos hlt] at h
+      have := walk_none rest (d - len a' b') (by linarith) h
+      simp only [sumLen]; linarith
+    · rw [if_neg hlt] at h; simp at h
+
+theorem walk_eq_none {len : Len} (hl : LenAx len) : ∀ (ss : List (Pt × Pt)) (d : Rat),
+    sumLen len ss < d → walk len ss d = none
+  | [], _, _ => rfl
+  | (a', b') :: rest, d, h => by
+    simp only [sumLen] at h
+    have h0 := sumLen_nonneg hl rest
+    have hlt : len a' b' < d := by linarith
+    simp only [walk, if_pos hlt]
+    exact walk_eq_none hl rest _ (by linarith)
+
+/-! ### arc-length positions on a chain of segments -/
+
+/-- `p` is the point at arc length `d` on the chain `ss` (closed at both ends of each segment). -/
+def OnSegs (len : Len) : List (Pt × Pt) → Rat → Pt → Prop
+  | [], _, _ => False
+  | (a, b) :: rest, d, p =>
+    (0 ≤ d ∧ d ≤ len a b ∧ p = pointAtDistanceBetween len a b d) ∨ OnSegs len rest (d - len a b) p
+
+/-- consecutive segments share an endpoint -/
+def Chain : List (Pt × Pt) → Prop
+  | [] => True
+  | [_] => True
+  | s₁ :: s₂ :: rest => s₁.2 = s₂.1 ∧ Chain (s₂ :: rest)
+
+theorem chain_segs : ∀ cs : List Pt, Chain (segs cs)
+  | [] => trivial
+  | [_] => trivial
+  | [_, _] => trivial
+  | a :: b :: c :: rest => by
+    have := chain_segs (b :: c :: rest)
+    simp only [segs] at this ⊢
+    exact ⟨rfl, this⟩
+
+theorem chain_tail {s : Pt × Pt} {ss : List (Pt × Pt)} (h : Chain (s :: ss)) : Chain ss := by
+  cases ss with
+  | nil => trivial
+  | cons t ts => exact h.2
+
+theorem pdb_zero (len : Len) (a b : Pt) : pointAtDistanceBetween len a b 0 = a := by
+  apply Pt.ext' <;> simp [pointAtDistanceBetween]
+
+theorem pdb_full {len : Len} (hl : LenAx len) (a b : Pt) :
+    pointAtDistanceBetween len a b (len a b) = b := by
+  by_cases h0 : len a b = 0
+  · have := hl.eq_of_zero a b h0; subst this
+    apply Pt.ext' <;> simp [pointAtDistanceBetween]
+  · apply Pt.ext' <;> simp only [pointAtDistanceBetween] <;> field_simp <;> ring
+
+theorem pdb_flip {len : Len} (hl : LenAx len) (a b : Pt) (d : Rat) :
+    pointAtDistanceBetween len b a (len a b - d) = pointAtDistanceBetween len a b d := by
+  by_cases h0 : len a b = 0
+  · have := hl.eq_of_zero a b h0; subst this
+    apply Pt.ext' <;> simp [pointAtDistanceBetween]
+  · have h1 : len b a ≠ 0 := by rw [← hl.symm a b]; exact h0
+    apply Pt.ext' <;> simp only [pointAtDistanceBetween] <;> rw [← hl.symm a b] <;> field_simp <;> ring
+
+theorem onSegs_nonneg {len : Len} (hl : LenAx len) : ∀ (ss : List (Pt × Pt)) (d : Rat) (p : Pt),
+    OnSegs len ss d p → 0 ≤ d
+  | [], _, _, h => h.elim
+  | (a, b) :: rest, d, p, h => by
+    rcases h with ⟨h0, _, _⟩ | h
+    · exact h0
+    · have := onSegs_nonneg hl rest _ p h
+      have := hl.nonneg a b
+      linarith
+
+theorem onSegs_le {len : Len} (hl : LenAx len) : ∀ (ss : List (Pt × Pt)) (d : Rat) (p : Pt),
+    OnSegs len ss d p → d ≤ sumLen len ss
+  | [], _, _, h => h.elim
+  | (a, b) :: rest, d, p, h => by
+    simp only [sumLen]
+    rcases h with ⟨_, h1, _⟩ | h
+    · have := sumLen_nonneg hl rest; linarith
+    · have := onSegs_le hl rest _ p h; linarith
+
+theorem onSegs_zero {len : Len} (hl : LenAx len) : ∀ (ss : List (Pt × Pt)) (a b : Pt) (p : Pt),
+    Chain ((a, b) :: ss) → OnSegs len ((a, b) :: ss) 0 p → p = a
+  | ss, a, b, p, hc, h => by
+    rcases h with ⟨_, _, hp⟩ | h
+    · rw [hp, pdb_zero]
+    · have hn := onSegs_nonneg hl ss _ p h
+      have h0 : len a b = 0 := by have := hl.nonneg a b; linarith
+      have hab := hl.eq_of_zero a b h0
+      rw [h0] at h
+      cases ss with
+      | nil => exact h.elim
+      | cons t ts =>
+        obtain ⟨a', b'⟩ := t
+        have := onSegs_zero hl ts a' b' p hc.2 (by simpa using h)
+        rw [this, hab]; exact hc.1.symm
+termination_by ss => ss.length
+
+theorem onSegs_first_later {len : Len} (hl : LenAx len) (a b : Pt) (rest : List (Pt × Pt)) (d : Rat)
+    (p q : Pt) (hc : Chain ((a, b) :: rest))
+    (h1 : 0 ≤ d ∧ d ≤ len a b ∧ p = pointAtDistanceBetween len a b d)
+    (h2 : OnSegs len rest (d - len a b) q) : p = q := by
+  obtain ⟨_, h1, e⟩ := h1
+  have hn := onSegs_nonneg hl rest _ q h2
+  have hd : d = len a b := by linarith
+  rw [hd, pdb_full hl] at e
+  rw [hd, sub_self] at h2
+  cases rest with
+  | nil => exact h2.elim
+  | cons t ts =>
+    obtain ⟨a', b'⟩ := t
+    rw [e, onSegs_zero hl ts a' b' q hc.2 h2]; exact hc.1
+
+/-- [key] a chain passes through exactly one point at each arc length. -/
+theorem onSegs_unique {len : Len} (hl : LenAx len) : ∀ (ss : List (Pt × Pt)) (d : Rat) (p q : Pt),
+    Chain ss → OnSegs len ss d p → OnSegs len ss d q → p = q
+  | [], _, _, _, _, h, _ => h.elim
+  | (a, b) :: rest, d, p, q, hc, hp, hq => by
+    rcases hp with hp | hp <;> rcases hq with hq | hq
+    · rw [hp.2.2, hq.2.2]
+    · exact onSegs_first_later hl a b rest d p q hc hp hq
+    · exact (onSegs_first_later hl a b rest d q p hc hq hp).symm
+    · exact onSegs_unique hl rest _ p q (chain_tail hc) hp hq
+
+theorem onSegs_append {len : Len} : ∀ (xs ys : List (Pt × Pt)) (d : Rat) (p : Pt),
+    OnSegs len (xs ++ ys) d p ↔ OnSegs len xs d p ∨ OnSegs len ys (d - sumLen len xs) p
+  | [], ys, d, p => by simp [OnSegs, sumLen]
+  | (a, b) :: xs, ys, d, p => by
+    simp only [List.cons_append, OnSegs, sumLen]
+    rw [onSegs_append xs ys (d - len a b) p, or_assoc]
+    have : d - len a b - sumLen len xs = d - (len a b + sumLen len xs) := by ring
+    rw [this]
+
+/-- reversing the chain maps arc length `d` to `total − d`. -/
+theorem onSegs_flipRev {len : Len} (hl : LenAx len) : ∀ (ss : List (Pt × Pt)) (d : Rat) (p : Pt),
+    OnSegs len ss d p → OnSegs len (flipRev ss) (sumLen len ss - d) p
+  | [], _, _, h => h.elim
+  | (a, b) :: rest, d, p, h => by
+    rw [flipRev_cons, onSegs_append, sumLen_flipRev hl]
+    simp only [sumLen]
+    rcases h with ⟨h0, h1, hp⟩ | h
+    · right
+      left
+      refine ⟨by linarith, by rw [← hl.symm a b]; linarith, ?_⟩
+      have : len a b + sumLen len rest - d - sumLen len rest = len a b - d := by ring
+      rw [this, pdb_flip hl, hp]
+    · left
+      have := onSegs_flipRev hl rest _ p h
+      have e : sumLen len rest - (d - len a b) = len a b + sumLen len rest - d := by ring
+      rwa [e] at this
+
+theorem walk_onSegs {len : Len} : ∀ (ss : List (Pt × Pt)) (d : Rat) {a b : Pt} {r : Rat}, 0 < d →
+    walk len ss d = some (a, b, r) → OnSegs len ss d (pointAtDistanceBetween len a b r)
+  | [], _, _, _, _, _, h => by simp [walk] at h
+  | (a', b') :: rest, d, a, b, r, hd, h => by
+    simp only [walk] at h
+    by_cases hlt : len a' b' < d
+    · rw [if_pos hlt] at h
+      exact Or.inr (walk_onSegs rest _ (by linarith) h)
+    · rw [if_neg hlt] at h
+      simp only [Option.some.injEq, Prod.mk.injEq] at h
+      obtain ⟨rfl, rfl, rfl⟩ := h
+      exact Or.inl ⟨le_of_lt hd, not_lt.1 hlt, rfl⟩
+
 end Geo.Proofs.C15
